@@ -90,6 +90,18 @@ def observe(drv: CL.Driver, km, tk, rng, env_snap, originals, nq: int) -> Dict[s
     try:
         rec.update(CL.raw_projection(drv.raw, km, tk, validate=validator(drv.raw)))
         rec.update(CL.user_projection(drv.mc, km, tk))
+        # identity of the container: uuid, specification version, driver type; what it reports as its source and
+        # driver must describe the object it wraps
+        toc = drv.mc.metador
+        rec["ident"] = f"{toc.container_uuid}|{'.'.join(map(str, toc.spec_version))}|{toc.driver_type.name}"
+        src = toc.source
+        if drv.kind == "h5":
+            src_ok = str(src) == str(drv.d / "c.h5") and toc.driver_type.name == "HDF5"
+        else:
+            rname = Path(str(list(src)[0])).name.split(".")[0] if src else "c"     # "c", or "merged" after a merge
+            on_disk = sorted(str(f_) for f_ in drv.d.iterdir() if f_.name.endswith(".ih5") and f_.name.split(".")[0] == rname)
+            src_ok = sorted(map(str, src)) == on_disk and toc.driver_type.name == "IH5"
+        rec["ident_ok"] = bool(src_ok and isinstance(drv.raw, toc.driver) and toc.spec_version == [1, 0])
         # queries: container level and group level
         qs = []
         nodes = [n["p"] for n in rec["tree"]]
@@ -138,6 +150,8 @@ def observe(drv: CL.Driver, km, tk, rng, env_snap, originals, nq: int) -> Dict[s
         rec["obs_err"] = type(ex).__name__ + ": " + str(ex)[:300] + " | " + traceback.format_exc()[-400:]
         for k in ("tree", "meta", "links", "schemas", "pkgs", "empties", "weird", "uview", "uvisit", "uextra", "queries", "gets", "files"):
             rec.setdefault(k, [])
+        rec.setdefault("ident", "")
+        rec.setdefault("ident_ok", True)
         rec.setdefault("index_live", "")
         rec.setdefault("index_fresh", "")
     return rec
@@ -403,7 +417,7 @@ def run_history(job: Dict[str, Any], emit, scratch: Path, tk: h5lib.Tokens, env:
                         o = {"drv": d.kind, "timeout": False, "obs_err": "boundary/reopen failed: " + broken[1],
                              "tree": [], "meta": [], "links": [], "schemas": [], "pkgs": [], "empties": [], "weird": [],
                              "uview": [], "uvisit": [], "uextra": [], "queries": [], "gets": [], "files": [], "index_live": "",
-                             "index_fresh": "", "ok": False, "exc": broken[1]}
+                             "index_fresh": "", "ident": "", "ident_ok": True, "ok": False, "exc": broken[1]}
                     else:
                         o = observe(d, km, tk, rng, snap, originals, 0)
                         o.update(ok=True, exc="")
